@@ -14,15 +14,32 @@ is non_overridable nopass pass deferred extends operator assignment mold source 
 """.split()
 
 
+F2008_INTRINSICS = """acosh asinh atanh bessel_j0 bessel_j1 bessel_jn bessel_y0 bessel_y1 bessel_yn erf erfc erfc_scaled gamma hypot
+log_gamma norm2 parity popcnt poppar leadz trailz bge bgt ble blt dshiftl dshiftr shifta shiftl shiftr maskl maskr merge_bits iall iany
+iparity findloc storage_size is_contiguous image_index lcobound ucobound num_images this_image atomic_define atomic_ref
+execute_command_line compiler_options compiler_version c_sizeof""".split()
+
+
 def _intrinsic_names():
+    out = []
     try:
         from fparser.two.Fortran2003 import Intrinsic_Name
-        out = []
         for k in Intrinsic_Name.function_names:
             out.append(str(k).lower())
-        return out
     except Exception:
-        return []
+        pass
+    try:
+        from fparser.two.Fortran2008.intrinsics_f08 import Intrinsic_Name as Intrinsic_Name_2008
+        for k in Intrinsic_Name_2008.function_names:
+            if str(k).lower() not in out:
+                out.append(str(k).lower())
+    except Exception:
+        pass
+    # Fortran 2008 intrinsics (independent of fparser's tables)
+    for k in F2008_INTRINSICS:
+        if k not in out:
+            out.append(k)
+    return out
 
 
 _BAD = {}
